@@ -373,6 +373,12 @@ impl<S: WebSocket, T: TimestampProvider> Task<S, T> {
         }
         // Finally, we send EOF to all established streams.
         self.flows.write().drain().for_each(|(flow_id, slot)| {
+            // A pending `Connect` was not rejected by the peer: the connection is gone.
+            // Dropping its sender makes the requester see `Closed` instead of retrying
+            // (or failing with `FlowIdRejected` on its last attempt).
+            if matches!(slot, FlowSlot::Requested(_)) {
+                return;
+            }
             self.close_flow_local(slot, flow_id, true);
         });
         // To clean up, we also drain the `dropped_flows_rx` channel
